@@ -569,3 +569,67 @@ Definition justified (r : N) (body : list N) (conns : list (list tev)) : bool :=
     existsb (fun s => existsb (fun b => if list_eq_dec N.eq_dec b body then true else false)
                                (sent_for s r false t))
             (streams_of r t)) conns.
+
+(* ---------------------------------------------------------------- what the driver accepts *)
+(* What one client future returned, as the runner reports it. *)
+Inductive cres :=
+| ROk (marker padlen : N) (intact : bool)   (* a row was handed to the caller: its marker, padding length, and
+                                               whether the bytes are the ones the scenario generates for that marker *)
+| RErr                                       (* an error was returned *)
+| RCancelled                                 (* the caller dropped the future *)
+| RHang                                      (* not completed within the bound *)
+| RPanic.                                    (* the client task panicked *)
+
+(* request id the runner gives to the request with marker m (handshake frames get odd ids) *)
+Definition rid_of_marker (m : N) : N := 2 * m.
+
+(* the runner's echo body: <prefix: result kind, metadata, row count> <int len> <8 byte marker> <padding>;
+   Some (marker, padding length) iff the body has exactly that shape with the expected prefix *)
+Definition echo_of (prefix body : list N) : option (N * N) :=
+  match take (List.length prefix) body with
+  | Some (p, rest) =>
+      if list_eq_dec N.eq_dec p prefix then
+        match take 4 rest with
+        | Some (l, cell) =>
+            if (be_dec l =? N.of_nat (List.length cell)) && (8 <=? be_dec l) then
+              match take 8 cell with
+              | Some (mk, pad) => Some (be_dec mk, N.of_nat (List.length pad))
+              | None => None
+              end
+            else None
+        | None => None
+        end
+      else None
+  | None => None
+  end.
+
+Definition seen_on (rid : N) (t : list tev) : bool :=
+  match streams_of rid t with [] => false | _ => true end.
+
+(* one result is acceptable: an error / a cancellation, or the request's OWN marker, intact, and a
+   body with exactly that marker and padding length was completely written for that request *)
+Definition res_accept (prefix : list N) (conns : list (list tev)) (own : N) (r : cres) : bool :=
+  match r with
+  | ROk m p intact =>
+      (m =? own) && intact &&
+      existsb (fun t => existsb (fun e => (fst e =? rid_of_marker own) &&
+                                          match echo_of prefix (snd e) with
+                                          | Some (m', p') => (m' =? m) && (p' =? p)
+                                          | None => false
+                                          end) (sent_table [] t)) conns
+  | RErr | RCancelled => true
+  | RHang | RPanic => false
+  end.
+
+Fixpoint results_accept (prefix : list N) (idem : bool) (conns : list (list tev)) (own : N) (rs : list cres) : bool :=
+  match rs with
+  | [] => true
+  | r :: t =>
+      res_accept prefix conns own r &&
+      resend_ok idem (List.length (filter (seen_on (rid_of_marker own)) conns)) &&
+      results_accept prefix idem conns (own + 1) t
+  end.
+
+(* the conjunction the driver evaluates before every `ok`: the results of requests 1, 2, ... *)
+Definition accept_obs (prefix : list N) (idem : bool) (conns : list (list tev)) (rs : list cres) : bool :=
+  results_accept prefix idem conns 1 rs.
